@@ -1,91 +1,207 @@
 import UF.Model.Pool
 /-
-  Prog: an abstract but executable state machine for queries against the shared state of an engine
-  (C13, C14, C19).
+  Prog: an executable state machine for queries against the shared state of an engine
+  (C13, C14, C19).  Second version (integration group J): the machine now has
 
-  Shared state  = rule cache (`RuleStorage.cache`), closed lists (fault state), lazy-compile flags
-                  (`NetworkRule.regex/invalid`), pooled requests (`DNSEngine.pool`).
-  A query       = `poolGet` + refill (DNS engine only), then a loop over the candidate indices the
+    * an explicit FAILURE outcome `PC.crash`, reached when a nil pointer is dereferenced: the result of
+      a failed retrieval used without the nil check of the lookup table, or `f.regex.MatchString` on a
+      rule whose `regex` is nil;
+    * the nil checks of `ShortcutsTable.MatchAll`, `DomainsTable.MatchAll` and
+      `DNSEngine.matchLookupTable` as explicit branches (`stepG nc`: `nc src = false` is the code with
+      the nil check of table `src` REMOVED);
+    * the lazy-compile state of `NetworkRule.preparePattern` as a per-object cell
+      ∈ {uncompiled, compiled re, invalid} that `Match` READS: the first use writes it under the rule
+      mutex (`PC.prep`, one atomic action), `matchPattern` then reads `f.regex` OUTSIDE the lock
+      (`PC.rx`, a second action);
+    * the `ruleIn` de-duplication of `ShortcutsTable.MatchAll`, the in-memory sequential-scan table as
+      explicit actions (its rules are compiled lazily like all others), and the two stages of
+      `DNSEngine.MatchRequest` (network tables; then, if `GetDNSBasicRule` finds nothing, the hosts table).
+
+  Shared state  = rule cache (`RuleStorage.cache`), closed lists (fault state), lazy-compile cells
+                  (`NetworkRule.regex/invalid`, one per rule OBJECT), pooled requests (`DNSEngine.pool`).
+  A query       = `poolGet` + refill (DNS engine only), then a loop over the candidate indexes the
                   immutable lookup tables give for the request; each candidate goes through
                   `RuleStorage.RetrieveRule` exactly as written in filterlist/storage.go:
 
-                      cacheGet idx            (under cacheMu.RLock)
-                      on a miss: listRead idx (seek + read + parse under the list mutex; fails when closed)
-                      on success: cachePut    (under cacheMu.Lock)
-                      nil rules are skipped   (lookup/*.go, dnsengine.go)
-                      compile + re-Match      (preparePattern under the rule mutex; Match)
+                      get     cacheGet idx            (under cacheMu.RLock)
+                      read    on a miss: listRead idx (seek + read + parse under the list mutex; fails when closed)
+                      put     on success: cachePut    (under cacheMu.Lock; keeps the object already there, D15)
+                      use     back in the table: the pointer `RetrieveNetworkRule`/`RetrieveHostRule`
+                              returned (nil on error, nil when the type assertion fails): nil check,
+                              `ruleIn` (shortcuts table), the nine stateless checks of `Match`
+                      prep    `preparePattern` under the rule mutex: reads and (first use) writes the cell
+                      rx      `f.regex.MatchString(...)`: reads the cell WITHOUT the lock
 
-                  and finally `poolPut`.  One action = one critical section; that granularity is the
-                  ASSUMPTION compared with the lock facts extracted from the code (Props/C14.lean).
+                  then the rules of the sequential table (`seq k`, `prep`, `rx`), then `mid`
+                  (`GetDNSBasicRule` decides whether the hosts table is consulted) and `fin` (`poolPut`).
+                  One action = at most one critical section; that granularity is the ASSUMPTION compared
+                  with the lock facts extracted from the code (Props/C14.lean).
+  Object identity: one rule object per storage index (the cache keeps the first object, D15) and one per
+                  entry of the sequential table; `ruleIn` (pointer equality) is equality of storage indexes.
   `truth`       = the content-determined retrieval function (C11): what reading index `idx` of the
                   unmodified lists yields.
-  Everything is parametric in the rule type `R`, `truth`, the candidate function and `matches`.
+  Everything is parametric in the rule type `R`, the compiled-expression type `Re`, `truth`, the
+  candidate functions and the parts of `Match`; `UF/Compose4/EnvOfEngine.lean` instantiates them with
+  the engine models.
 -/
 namespace UF.Prog
 
 abbrev Idx := Int
 abbrev ListId := Int
 
+/-- What `preparePattern` computes on a rule that has no `regex` yet: the pattern is "match anything"
+    (returns 0, stores nothing), compiles (stores `regex`, returns 1), or `regexp.Compile` fails (stores
+    `invalid = true`, returns -1). -/
+inductive Comp (Re : Type) where
+  | any
+  | re (x : Re)
+  | bad
+  deriving DecidableEq, Repr
+
+/-- The lazy-compile state of one rule object: the fields `regex` and `invalid`. -/
+inductive Cell (Re : Type) where
+  | uncompiled
+  | compiled (x : Re)
+  | invalid
+  deriving DecidableEq, Repr
+
+instance {Re} : Inhabited (Cell Re) := ⟨.uncompiled⟩
+
+/-- The cell `preparePattern` leaves behind. -/
+def Comp.cell {Re} : Comp Re → Cell Re
+  | .any => .uncompiled
+  | .re x => .compiled x
+  | .bad => .invalid
+
+/-- The three tables that hold storage indexes. -/
+inductive Src where
+  | sc | dom | host
+  deriving DecidableEq, Repr
+
+/-- One unit of work of a query: a storage index found in a table, or entry `k` of the sequential table. -/
+inductive Item where
+  | st (src : Src) (idx : Idx)
+  | seq (k : Nat)
+  deriving DecidableEq, Repr
+
+def Item.isHost : Item → Bool
+  | .st .host _ => true
+  | _ => false
+
+/-- A rule object (owner of a lazy-compile cell): the cached object of a storage index, or entry `k` of
+    the sequential table. -/
+inductive Obj where
+  | st (idx : Idx)
+  | seq (k : Nat)
+  deriving DecidableEq, Repr
+
+def Item.obj : Item → Obj
+  | .st _ idx => .st idx
+  | .seq k => .seq k
+
 /-- The immutable part of an engine. -/
-structure Env (R : Type) where
+structure Env (R Re : Type) where
   /-- what the lists hold at a storage index (content-determined, C11) -/
   truth : Idx → Option R
   /-- the list a storage index belongs to -/
   listOf : Idx → ListId
-  /-- identity of the rule object for the lazy-compile flag -/
-  ruleId : R → Nat
   /-- `effectiveTLDPlusOne` -/
   etld1 : Bytes → Bytes
-  /-- candidate indices the lookup tables yield for a request (tables are immutable after construction) -/
-  cands : Request → List Idx
-  /-- `rule.Match(request)`; does not read the compile flag: the compiled pattern is a function of the rule -/
-  mtch : R → Request → Bool
+  /-- candidate indexes of the network tables for a request, in visiting order: `true` = shortcuts table
+      (one entry per URL window and bucket element), `false` = domains table (tables are immutable
+      after construction) -/
+  cands : Request → List (Bool × Idx)
+  /-- the bucket of the DNS engine's hosts table for the request's hostname -/
+  hcands : Request → List Idx
+  /-- `GetDNSBasicRule(res.NetworkRules) != nil` -/
+  basic : List R → Bool
+  /-- the type assertion of `RetrieveNetworkRule` (`sc`, `dom`) / `RetrieveHostRule` (`host`) -/
+  wants : Src → R → Bool
+  /-- the stateless part of `rule.Match(request)`: the nine checks before `matchPattern`
+      (for a host rule: all of `HostRule.Match`) -/
+  pre : R → Request → Bool
+  /-- `patternToRegexp` + `regexp.Compile`: a function of the rule -/
+  compile : R → Comp Re
+  /-- `regex.MatchString(hostname or URL)` -/
+  accepts : Re → R → Request → Bool
   /-- rules held in memory by the sequential-scan table (never retrieved through the storage) -/
   resident : List R
 
 /-- Shared mutable state. -/
-structure State (R : Type) where
+structure State (R Re : Type) where
   cache : List (Idx × R) := []
   closed : List ListId := []
-  compiled : List Nat := []
+  cells : Obj → Cell Re := fun _ => .uncompiled
   pool : List Request := []
 
-/-- A query: through the DNS engine's request pool, or with a caller-owned request. -/
+/-- A query: through the DNS engine (request pool, two stages), or `NetworkEngine.MatchAll` with a
+    caller-owned request. -/
 inductive Query where
   | dns (d : DReq)
   | web (r : Request)
   deriving DecidableEq, Repr, Inhabited
 
+/-- `if dReq.Hostname == "" { return res, false }`: nothing is touched. -/
+def Query.trivial : Query → Bool
+  | .dns d => d.hostname.isEmpty
+  | .web _ => false
+
 /-- The request a query is about (what a fresh engine would build). -/
-def Env.reqOf {R} (env : Env R) : Query → Request
+def Env.reqOf {R Re} (env : Env R Re) : Query → Request
   | .dns d => fillFromPool env.etld1 default d
   | .web r => r
 
 /-- Program counter of a query in progress. -/
 inductive PC (R : Type) where
   | start
-  | get (idx : Idx)
-  | read (idx : Idx)
-  | put (idx : Idx) (r : R)
-  | comp (r : R)
+  | get (src : Src) (idx : Idx)
+  | read (src : Src) (idx : Idx)
+  | put (src : Src) (idx : Idx) (r : R)
+  | use (src : Src) (idx : Idx) (o : Option R)
+  | seq (k : Nat)
+  | prep (it : Item) (r : R)
+  | rx (it : Item) (r : R)
+  | mid
   | fin
   | done
+  | crash
 
-/-- A thread = a query in progress. -/
+/-- A thread = a query in progress.  `acc` = the result slices (`result` of the table in progress and
+    everything appended before), each rule with the item it came from; `stage` = the hosts-table stage. -/
 structure Thread (R : Type) where
   q : Query
   pc : PC R := .start
   req : Request := default
-  todo : List Idx := []
-  acc : List R := []
+  todo : List Item := []
+  acc : List (Item × R) := []
+  stage : Bool := false
 
 def Thread.init {R} (q : Query) : Thread R := { q := q }
 
-/-- Move on to the next candidate (or to the final `poolPut`). -/
+/-- Work list of the first stage: shortcuts-table candidates, domains-table candidates, the
+    sequential table (`NetworkEngine.MatchAll` concatenates the three answers in this order). -/
+def Env.items1 {R Re} (env : Env R Re) (req : Request) : List Item :=
+  (env.cands req).map (fun c => Item.st (if c.1 then .sc else .dom) c.2) ++
+    (List.range env.resident.length).map Item.seq
+
+/-- Work list of the second stage, given the network rules found (`MatchRequest` only). -/
+def Env.items2 {R Re} (env : Env R Re) (q : Query) (req : Request) (nrs : List R) : List Item :=
+  match q with
+  | .web _ => []
+  | .dns _ => if env.basic nrs then [] else (env.hcands req).map (Item.st .host)
+
+/-- `res.NetworkRules` / the answer of `MatchAll`. -/
+def nets {R} (acc : List (Item × R)) : List R := (acc.filter (fun e => !e.1.isHost)).map (·.2)
+
+/-- The host rules found (`HostRulesV4` and `HostRulesV6` together, in table order). -/
+def hosts {R} (acc : List (Item × R)) : List R := (acc.filter (fun e => e.1.isHost)).map (·.2)
+
+/-- Move on to the next item (or to `mid` / `fin`). -/
 def Thread.advance {R} (t : Thread R) : Thread R :=
   match t.todo with
-  | [] => { t with pc := .fin }
-  | i :: rest => { t with pc := .get i, todo := rest }
+  | [] => if t.stage then { t with pc := .fin } else { t with pc := .mid }
+  | .st src idx :: rest => { t with pc := .get src idx, todo := rest }
+  | .seq k :: rest => { t with pc := .seq k, todo := rest }
 
 def cacheLookup {R} (c : List (Idx × R)) (idx : Idx) : Option R :=
   match c.find? (fun e => e.1 == idx) with
@@ -96,81 +212,192 @@ def cacheLookup {R} (c : List (Idx × R)) (idx : Idx) : Option R :=
 def cacheInsert {R} (c : List (Idx × R)) (idx : Idx) (r : R) : List (Idx × R) :=
   (idx, r) :: c.filter (fun e => e.1 != idx)
 
-/-- One atomic action of thread `t` on the shared state `s`. -/
-def step {R} (env : Env R) (s : State R) (t : Thread R) : State R × Thread R :=
+/-- `ruleIn(rule, result)` of the shortcuts table: pointer equality = same storage index. -/
+def ruleIn {R} (idx : Idx) (acc : List (Item × R)) : Bool := acc.any (fun e => e.1 == Item.st .sc idx)
+
+/-- `f.regex = x` / `f.invalid = true` on one object. -/
+def cellSet {Re} (cells : Obj → Cell Re) (ob : Obj) (c : Cell Re) : Obj → Cell Re :=
+  fun o => if o = ob then c else cells o
+
+/-- One atomic action of thread `t` on the shared state `s`.  `nc src = true`: the table `src` tests the
+    retrieved pointer against nil before using it (the code); `false`: that test removed. -/
+def stepG {R Re} (nc : Src → Bool) (env : Env R Re) (s : State R Re) (t : Thread R) : State R Re × Thread R :=
   match t.pc with
   | .start =>
     match t.q with
     | .dns d =>
-      -- poolGet (a new zero Request when the pool is empty), then the refill
-      let old := s.pool.headD default
-      let req := fillFromPool env.etld1 old d
-      ({ s with pool := s.pool.tail }, ({ t with req := req, todo := env.cands req, acc := [] } : Thread R).advance)
+      if d.hostname.isEmpty then (s, { t with pc := .done, todo := [], acc := [], stage := false })
+      else
+        -- poolGet (a new zero Request when the pool is empty), then the refill
+        let old := s.pool.headD default
+        let req := fillFromPool env.etld1 old d
+        ({ s with pool := s.pool.tail },
+          ({ t with req := req, todo := env.items1 req, acc := [], stage := false } : Thread R).advance)
     | .web r =>
-      (s, ({ t with req := r, todo := env.cands r, acc := [] } : Thread R).advance)
-  | .get idx =>
+      (s, ({ t with req := r, todo := env.items1 r, acc := [], stage := false } : Thread R).advance)
+  | .get src idx =>
     match cacheLookup s.cache idx with
-    | some r => (s, { t with pc := .comp r })
-    | none => (s, { t with pc := .read idx })
-  | .read idx =>
-    if s.closed.contains (env.listOf idx) then (s, t.advance)   -- retrieval error: nil rule, skipped
+    | some r => (s, { t with pc := .use src idx ((some r).filter (env.wants src)) })
+    | none => (s, { t with pc := .read src idx })
+  | .read src idx =>
+    -- retrieval error: `RetrieveNetworkRule`/`RetrieveHostRule` log it and return nil
+    if s.closed.contains (env.listOf idx) then (s, { t with pc := .use src idx none })
     else match env.truth idx with
-      | some r => (s, { t with pc := .put idx r })
-      | none => (s, t.advance)
-  | .put idx r =>
+      | some r => (s, { t with pc := .put src idx r })
+      | none => (s, { t with pc := .use src idx none })
+  | .put src idx r =>
     -- (since the repair of D15) another thread may have stored the rule meanwhile: keep that object
     match cacheLookup s.cache idx with
-    | some r' => (s, { t with pc := .comp r' })
-    | none => ({ s with cache := cacheInsert s.cache idx r }, { t with pc := .comp r })
-  | .comp r =>
-    let s' := if s.compiled.contains (env.ruleId r) then s else { s with compiled := env.ruleId r :: s.compiled }
-    let t' := if env.mtch r t.req then { t with acc := t.acc ++ [r] } else t
-    (s', t'.advance)
+    | some r' => (s, { t with pc := .use src idx ((some r').filter (env.wants src)) })
+    | none => ({ s with cache := cacheInsert s.cache idx r },
+               { t with pc := .use src idx ((some r).filter (env.wants src)) })
+  | .use src idx o =>
+    match o with
+    | none =>
+      -- `rule == nil ||` (shortcuts), `rule != nil &&` (domains, hosts table); without the test the
+      -- next thing the code does is `rule.Match(...)` on the nil pointer
+      if nc src then (s, t.advance) else (s, { t with pc := .crash })
+    | some r =>
+      if src == .sc && ruleIn idx t.acc then (s, t.advance)
+      else if src == .host then
+        -- `HostRule.Match`: no pattern, no lazy state
+        (s, (if env.pre r t.req then { t with acc := t.acc ++ [(Item.st src idx, r)] } else t).advance)
+      else if env.pre r t.req then (s, { t with pc := .prep (.st src idx) r })
+      else (s, t.advance)
+  | .seq k =>
+    match env.resident[k]? with
+    | none => (s, t.advance)
+    | some r => if env.pre r t.req then (s, { t with pc := .prep (.seq k) r }) else (s, t.advance)
+  | .prep it r =>
+    -- `preparePattern`, under the rule mutex
+    match s.cells it.obj with
+    | .compiled _ => (s, { t with pc := .rx it r })                    -- `f.regex != nil`: 1
+    | .invalid => (s, t.advance)                                        -- `f.invalid`: -1
+    | .uncompiled =>
+      match env.compile r with
+      | .any => (s, ({ t with acc := t.acc ++ [(it, r)] } : Thread R).advance)       -- 0: matches
+      | .re x => ({ s with cells := cellSet s.cells it.obj (.compiled x) }, { t with pc := .rx it r })
+      | .bad => ({ s with cells := cellSet s.cells it.obj .invalid }, t.advance)
+  | .rx it r =>
+    -- `f.regex.MatchString(...)`: reads `f.regex` with no lock; a nil `regex` is a nil dereference
+    match s.cells it.obj with
+    | .compiled x =>
+      (s, (if env.accepts x r t.req then { t with acc := t.acc ++ [(it, r)] } else t).advance)
+    | _ => (s, { t with pc := .crash })
+  | .mid =>
+    -- `GetDNSBasicRule(res.NetworkRules)`; then the hosts table, or return
+    (s, ({ t with todo := env.items2 t.q t.req (nets t.acc), stage := true } : Thread R).advance)
   | .fin =>
     match t.q with
     | .dns _ => ({ s with pool := t.req :: s.pool }, { t with pc := .done })
     | .web _ => (s, { t with pc := .done })
   | .done => (s, t)
+  | .crash => (s, t)
+
+/-- The code as it is: every table tests for nil. -/
+def step {R Re} (env : Env R Re) (s : State R Re) (t : Thread R) : State R Re × Thread R :=
+  stepG (fun _ => true) env s t
+
+/-- The code with the nil check of table `src` removed (non-vacuity of `c19_nopanic`). -/
+def stepNoNilCheck {R Re} (src : Src) (env : Env R Re) (s : State R Re) (t : Thread R) : State R Re × Thread R :=
+  stepG (fun x => x != src) env s t
 
 def PC.isDone {R} : PC R → Bool
   | .done => true
   | _ => false
 
-/-- The answer of a finished query: the re-Matched retrieved rules, then the matching in-memory rules. -/
-def Thread.answer {R} (env : Env R) (t : Thread R) : List R :=
-  t.acc ++ env.resident.filter (fun r => env.mtch r t.req)
+def PC.isCrash {R} : PC R → Bool
+  | .crash => true
+  | _ => false
 
-/-- The answer computed directly from `truth`, with no cache, pool or flags. -/
-def pureStorage {R} (env : Env R) (req : Request) (idxs : List Idx) : List R :=
-  (idxs.filterMap env.truth).filter (fun r => env.mtch r req)
+/-- The answer of a finished query: the network rules (`MatchAll` / `res.NetworkRules`) and the host rules. -/
+def Thread.answer {R} (t : Thread R) : List R × List R := (nets t.acc, hosts t.acc)
 
-def pureAnswer {R} (env : Env R) (q : Query) : List R :=
-  let req := env.reqOf q
-  pureStorage env req (env.cands req) ++ env.resident.filter (fun r => env.mtch r req)
+/-! ### The stateless reference: the same pipeline with no cache, pool, cells or faults -/
 
-/-- Upper bound on the number of actions a thread still needs. -/
-def Thread.fuel {R} (t : Thread R) : Nat :=
+/-- `preparePattern` + `MatchString` on a fresh rule object. -/
+def Env.patOK {R Re} (env : Env R Re) (r : R) (req : Request) : Bool :=
+  match env.compile r with
+  | .any => true
+  | .re x => env.accepts x r req
+  | .bad => false
+
+/-- `rule.Match(request)` on a fresh rule object. -/
+def Env.mtch {R Re} (env : Env R Re) (r : R) (req : Request) : Bool := env.pre r req && env.patOK r req
+
+/-- `Match` as the table `src` calls it. -/
+def Env.verdict {R Re} (env : Env R Re) (src : Src) (r : R) (req : Request) : Bool :=
+  if src == .host then env.pre r req else env.mtch r req
+
+/-- What a table does with the pointer it got for a storage index. -/
+def useStep {R Re} (env : Env R Re) (req : Request) (acc : List (Item × R)) (src : Src) (idx : Idx)
+    (o : Option R) : List (Item × R) :=
+  match o with
+  | none => acc
+  | some r =>
+    if src == .sc && ruleIn idx acc then acc
+    else if env.verdict src r req then acc ++ [(Item.st src idx, r)] else acc
+
+def seqStep {R Re} (env : Env R Re) (req : Request) (acc : List (Item × R)) (k : Nat) : List (Item × R) :=
+  match env.resident[k]? with
+  | none => acc
+  | some r => if env.mtch r req then acc ++ [(Item.seq k, r)] else acc
+
+def pureStep {R Re} (env : Env R Re) (req : Request) (acc : List (Item × R)) : Item → List (Item × R)
+  | .st src idx => useStep env req acc src idx ((env.truth idx).filter (env.wants src))
+  | .seq k => seqStep env req acc k
+
+def pureFold {R Re} (env : Env R Re) (req : Request) (acc : List (Item × R)) (items : List Item) :
+    List (Item × R) :=
+  items.foldl (pureStep env req) acc
+
+/-- The first stage computed directly from `truth`. -/
+def pure1 {R Re} (env : Env R Re) (req : Request) : List (Item × R) := pureFold env req [] (env.items1 req)
+
+/-- Both stages. -/
+def pure2 {R Re} (env : Env R Re) (q : Query) (req : Request) : List (Item × R) :=
+  pureFold env req (pure1 env req) (env.items2 q req (nets (pure1 env req)))
+
+/-- The answer computed directly from `truth`, with no cache, pool, cells or faults. -/
+def pureAnswer {R Re} (env : Env R Re) (q : Query) : List R × List R :=
+  if q.trivial then ([], [])
+  else (nets (pure2 env q (env.reqOf q)), hosts (pure2 env q (env.reqOf q)))
+
+/-- What the hosts table holds for the request (whether or not the fault-free run consults it). -/
+def pureHosts {R Re} (env : Env R Re) (req : Request) : List R :=
+  hosts (pureFold env req [] ((env.hcands req).map (Item.st .host)))
+
+/-! ### Running -/
+
+/-- Upper bound on the number of actions a started thread still needs. -/
+def Thread.fuel {R Re} (env : Env R Re) (t : Thread R) : Nat :=
+  let tail := if t.stage then 1 else 6 * (env.hcands t.req).length + 3
   match t.pc with
-  | .start => 0   -- unknown before the candidates are computed; see `runQuery`
-  | .get _ => 4 * t.todo.length + 5
-  | .read _ => 4 * t.todo.length + 4
-  | .put _ _ => 4 * t.todo.length + 3
-  | .comp _ => 4 * t.todo.length + 2
+  | .start => 0
+  | .get _ _ => 6 + 6 * t.todo.length + tail
+  | .read _ _ => 5 + 6 * t.todo.length + tail
+  | .put _ _ _ => 4 + 6 * t.todo.length + tail
+  | .use _ _ _ => 3 + 6 * t.todo.length + tail
+  | .seq _ => 3 + 6 * t.todo.length + tail
+  | .prep _ _ => 2 + 6 * t.todo.length + tail
+  | .rx _ _ => 1 + 6 * t.todo.length + tail
+  | .mid => 6 * (env.hcands t.req).length + 2
   | .fin => 1
   | .done => 0
+  | .crash => 0
 
 /-- Run one thread alone for `n` actions. -/
-def runThread {R} (env : Env R) : Nat → State R → Thread R → State R × Thread R
+def runThread {R Re} (env : Env R Re) : Nat → State R Re → Thread R → State R Re × Thread R
   | 0, s, t => (s, t)
   | n + 1, s, t =>
     let (s', t') := step env s t
     runThread env n s' t'
 
-/-- Sequential execution of one query: the first action computes the candidates, then as many
+/-- Sequential execution of one query: the first action computes the work list, then as many
     actions as the bound `Thread.fuel` says. -/
-def runQuery {R} (env : Env R) (s : State R) (q : Query) : State R × Thread R :=
+def runQuery {R Re} (env : Env R Re) (s : State R Re) (q : Query) : State R Re × Thread R :=
   let (s1, t1) := step env s (Thread.init q)
-  runThread env t1.fuel s1 t1
+  runThread env (t1.fuel env) s1 t1
 
 /-- A history event: a query, or the fault `close listId`. -/
 inductive HEv where
@@ -178,14 +405,18 @@ inductive HEv where
   | close (l : ListId)
   deriving Repr, Inhabited
 
-/-- Sequential execution of a history; returns the final state and the answers in order. -/
-def runHistory {R} (env : Env R) : State R → List HEv → State R × List (List R)
+/-- Sequential execution of a history; returns the final state and the finished threads in order. -/
+def runHistoryT {R Re} (env : Env R Re) : State R Re → List HEv → State R Re × List (Thread R)
   | s, [] => (s, [])
   | s, .query q :: rest =>
     let (s', t) := runQuery env s q
-    let (s'', as) := runHistory env s' rest
-    (s'', t.answer env :: as)
-  | s, .close l :: rest => runHistory env { s with closed := l :: s.closed } rest
+    let (s'', ts) := runHistoryT env s' rest
+    (s'', t :: ts)
+  | s, .close l :: rest => runHistoryT env { s with closed := l :: s.closed } rest
+
+/-- Sequential execution of a history; returns the final state and the answers in order. -/
+def runHistory {R Re} (env : Env R Re) (s : State R Re) (h : List HEv) : State R Re × List (List R × List R) :=
+  ((runHistoryT env s h).1, (runHistoryT env s h).2.map Thread.answer)
 
 /-! ### Concurrency: schedules -/
 
@@ -195,37 +426,45 @@ inductive Ev where
   | close (l : ListId)
   deriving Repr, Inhabited
 
-structure Config (R : Type) where
-  state : State R
+structure Config (R Re : Type) where
+  state : State R Re
   threads : List (Thread R)
 
-def Config.exec {R} (env : Env R) (c : Config R) : Ev → Config R
+def Config.execG {R Re} (stp : State R Re → Thread R → State R Re × Thread R) (c : Config R Re) :
+    Ev → Config R Re
   | .run tid =>
     match c.threads[tid]? with
     | none => c
     | some t =>
-      let (s', t') := step env c.state t
+      let (s', t') := stp c.state t
       { state := s', threads := c.threads.set tid t' }
   | .close l => { c with state := { c.state with closed := l :: c.state.closed } }
 
-def Config.run {R} (env : Env R) (c : Config R) (sched : List Ev) : Config R :=
+def Config.exec {R Re} (env : Env R Re) (c : Config R Re) : Ev → Config R Re := c.execG (step env)
+
+def Config.run {R Re} (env : Env R Re) (c : Config R Re) (sched : List Ev) : Config R Re :=
   sched.foldl (Config.exec env) c
+
+/-- Schedules of a variant machine (used only for the non-vacuity examples). -/
+def Config.runG {R Re} (stp : State R Re → Thread R → State R Re × Thread R) (c : Config R Re)
+    (sched : List Ev) : Config R Re :=
+  sched.foldl (Config.execG stp) c
 
 /-! ### The action table (the granularity ASSUMPTION, compared with the extracted lock facts)
 
   Each row: a Go method, a guarded field it touches through its receiver, read/write, and the lock it
   holds at that access (`Facts.lockTable` is recomputed from the source on every run and must be equal).
 
-  * `cacheGet`  = `RuleStorage.RetrieveRule` reading `cache` under `cacheMu.RLock`
-  * `cachePut`  = `RuleStorage.RetrieveRule` writing `cache` under `cacheMu.Lock`
-  * `listRead`  = `FileRuleList.RetrieveRule`: `File` (Seek + Read) and `buffer` under the list's own mutex
-  * `compile`   = `NetworkRule.preparePattern`: `regex`/`invalid` read and written under the rule's own mutex
-  * `NetworkRule.matchPattern` reads `regex` with no lock AFTER its own call of `preparePattern` returned
-    (unlock/lock of the same mutex orders it after the only write; `regex` is never written again) --
-    part of the model's `comp` action
+  * `get`   = `RuleStorage.RetrieveRule` reading `cache` under `cacheMu.RLock`
+  * `put`   = `RuleStorage.RetrieveRule` reading and writing `cache` under `cacheMu.Lock`
+  * `read`  = `FileRuleList.RetrieveRule`: `File` (Seek + Read) and `buffer` under the list's own mutex
+  * `prep`  = `NetworkRule.preparePattern`: `regex`/`invalid` read and written under the rule's own mutex
+  * `rx`    = `NetworkRule.matchPattern` reads `regex` with no lock AFTER its own call of `preparePattern`
+              returned 1: a separate action of the model; that it never finds `regex == nil` is the
+              invariant `Good.rx_cell` (the cell of an object never changes once it is set)
   * not query actions: `RuleStorage.GetCacheSize` (diagnostic, unlocked), `FileRuleList.NewScanner`
-    (engine construction), `FileRuleList.Close` (the fault action of C19; not concurrent with queries
-    in the model's histories)
+    (engine construction), `FileRuleList.Close` (the fault action of C19: the event `close` of schedules
+    and histories, which may come between any two actions)
 -/
 def actionTable : List (String × String × String × String) := [
   ("FileRuleList.Close", "File", "r", "none"),
